@@ -41,7 +41,10 @@ def builders():
     def gps(r):
         lat = r.choice([0.0, 4718.8051, 8959.9999, round(r.uniform(0, 8959.9999), 4)])
         lon = r.choice([0.0, 1854.4387, 17959.9999, round(r.uniform(0, 17959.9999), 4)])
-        spd = r.choice([0.0, 0.1, 5.0, 9.9, 10.0, 12.0, 99.0, 100.0, 999.0, float(r.randrange(0, 1000)), r.randrange(1, 100) / 10])
+        # the speed field holds three characters: "x.y" below 10, an integer from 10 on; values that only reach 10 after rounding
+        # to a tenth (9.95 .. 9.99) belong to the second form
+        spd = r.choice([0.0, 0.01, 0.04, 0.05, 0.1, 5.0, 9.9, 9.94, 9.95, 9.96, 9.99, 10.0, 10.4, 12.0, 99.0, 99.4, 99.6, 100.0, 999.0, 999.4, 999.5,
+                        999.9, float(r.randrange(0, 1000)), r.randrange(1, 100) / 10, round(r.uniform(9.9, 10.1), 3), round(r.uniform(0, 999.9), 2)])
         return L.GPSData(data_valid=r.choice(["A", "V"]), greenwich_time=datetime.time(r.randrange(24), r.randrange(60), r.randrange(60)),
                          greenwich_date=datetime.date(r.randrange(2000, 2100), r.randrange(1, 13), r.randrange(1, 29)),
                          north_south=r.choice(["N", "S"]), latitude=lat, east_west=r.choice(["E", "W"]), longitude=lon, speed_knots=spd,
@@ -113,7 +116,7 @@ def run(ctx):
                 "2^32-1, UTF-16 text, option data 0..300 octets, GPS over the NMEA range incl. speeds >= 10 kn), serialised, parsed, re-serialised, "
                 "nested in HRNP and in HSTRP with 0..3 options; TLC recomputes every format fact. distinct = distinct PDUs.")
     ctx.assumptions += [
-        "GPS speed is a 3-character field: values are drawn from what it can hold (x.y below 10, integers 10..999)",
+        "GPS speed is a 3-character field (x.y below 10, integers 10..999): any speed of the NMEA range 0..999.9 is built; field equality is judged on the value the field can hold (nearest tenth / integer, at most 999)",
         "field equality is value-based over all attributes of the parsed object (computed by the harness, judged as a boolean)",
     ]
     core.setup_repo_path()
@@ -140,6 +143,11 @@ def run(ctx):
                 stage = "serialise"
                 fr = o.as_bytes()
                 s["frame"], s["len"] = list(fr), len(o)
+                g = getattr(o, "gpsdata", None)
+                if g is not None and isinstance(getattr(g, "speed_knots", None), float):
+                    # field equality is judged on what the three-character speed field can hold
+                    v = g.speed_knots
+                    g.speed_knots = 0.0 if round(v, 1) <= 0 else (round(v, 1) if round(v, 1) < 10 else float(min(round(v), 999)))
                 stage = "parse"
                 p = HDAP.from_bytes(fr)
                 owned.append(p)
@@ -148,6 +156,16 @@ def run(ctx):
                 stage = "hrnp"
                 h = HRNP(data=o, opcode=HRNPOpcodes.DATA, source=rng.randrange(0x20, 0x30), destination=0x10, packet_number=rng.randrange(1 << 16),
                          block_number=rng.randrange(256))
+                if rnd % 3 != 1:
+                    # packet numbers aimed at the corners of ones-complement addition: the word sum carries a second time
+                    # after the first end-around fold / the folded sum is 0xFFFF (checksum 0x0000)
+                    h.packet_number = 0
+                    b0 = h.as_bytes()
+                    cd = b0[:10] + b0[12:] + (b"\x00" if len(b0) % 2 else b"")
+                    s0 = sum(int.from_bytes(cd[i:i + 2], "big") for i in range(0, len(cd), 2))
+                    low0, h0 = s0 & 0xFFFF, s0 >> 16
+                    if h0 >= 1:
+                        h.packet_number = (65535 - low0) if rnd % 3 == 0 else (65535 - h0 - low0) % 65536
                 hb = h.as_bytes()
                 s["hrnp"] = list(hb)
                 hp = HRNP.from_bytes(hb)
